@@ -141,7 +141,11 @@ def task_mid(t):
     sets = sorted(set(U.all_functions((x, 'c_'))) | set(U.all_functions((xp, 'c_'))))
     mine = sweep.shard(fs, ns)[si]
     cnt = nt = 0
+    _decoy = sweep.Decoy(names)
     for ft in mine:
+        _bad = _decoy.poke()
+        if _bad:
+            rec('second-manager:' + _bad, _bad, dict(task=t))
         if focus is not None and ft != focus:
             continue
         ut = refs[ft]
